@@ -55,7 +55,7 @@ def count_lines(path):
     return n
 
 
-def execute(cases, out, timeout_ms=20000, dom_max=20000):
+def execute(cases, out, timeout_ms=20000, dom_max=20000, steps_every=0):
     """Run cases on the real library. A crash (abort / stack overflow / signal) or a per-case timeout is
     attributed to the case in flight via the journal, recorded as data, and the run resumes after it."""
     journal = out + '.journal'
@@ -64,6 +64,8 @@ def execute(cases, out, timeout_ms=20000, dom_max=20000):
     first = True
     while True:
         args = [H2TV, 'exec', cases, out, '--journal', journal, '--timeout-ms', str(timeout_ms), '--dom-max', str(dom_max)]
+        if steps_every:
+            args += ['--steps-every', str(steps_every)]
         if not first:
             args += ['--skip', str(skip)]
         p = subprocess.run(args, stdout=subprocess.PIPE, stderr=subprocess.PIPE)
@@ -196,6 +198,47 @@ def judge(trace, prop, module='TraceProps', extra_env=None, nproc=NPROC, max_cas
     for pp, _ in parts:
         os.remove(pp)
     return judged, bad, states, time.time() - t0
+
+
+def steps_validate(trace, wd, maxn, nproc=NPROC):
+    """Step-level trace validation (spec/trace/TraceSteps.tla): the runs of `trace` that carry hook events
+    are replayed through the step machine one work item per TLC state.  Returns
+    (records, events, [(record id, why)], tlc states, wall)."""
+    import steps_extract
+    sp = os.path.join(wd, 'steps.trace')
+    n, ev = steps_extract.extract(trace, sp, maxn)
+    if n == 0:
+        return 0, 0, [], 0, 0.0
+    ids = [json.loads(l)['id'] for l in open(sp)]
+    per = max(1, (n + nproc - 1) // nproc)
+    parts = split_trace(sp, max_cases=per)
+    t0 = time.time()
+
+    def one(part):
+        pp, first = part
+        rc, out = run_tlc(os.path.join(SPEC, 'trace'), 'TraceSteps', 'TraceSteps.cfg', env={'TRACE': pp, 'PROP': 'x'}, workers=1, heap='3g')
+        mj = JUDGED_RE.search(out)
+        mb = BAD_RE.search(out)
+        me = re.search(r'"EVENTS",\s*(\d+)', out)
+        if rc != 0 or not mj or not mb:
+            k = out.find('Error:')
+            raise ToolError('TLC step validation failed on %s:\n%s' % (pp, out[k:k + 2500] if k >= 0 else out[-2500:]))
+        bad = [(ids[first + i - 1], why) for i, why in parse_tla_set(mb.group(1))]
+        return int(mj.group(1)), int(me.group(1)) if me else 0, bad, parse_stats(out)[0]
+
+    recs = evs = states = 0
+    bad = []
+    with ThreadPoolExecutor(max_workers=nproc) as ex:
+        for j, e, b, st in ex.map(one, parts):
+            recs += j
+            evs += e
+            bad += b
+            states += st
+    for pp, _ in parts:
+        os.remove(pp)
+    if recs != n:
+        raise ToolError('step validation consumed %d of %d records' % (recs, n))
+    return n, evs, bad, states, time.time() - t0
 
 
 def read_ndjson(path):
